@@ -38,6 +38,7 @@ type result struct {
 	startOK bool
 	stopOK  bool
 	nearOK  *bool // set by routines with their own notion of "near the optimum"
+	consOK  *bool // set by routines whose returned point is not a point of the case's space (line search)
 	info    vh.M
 }
 
@@ -67,13 +68,17 @@ func has(l []string, s string) bool {
 
 var scalarFamilies = []string{"quad", "sepconv", "quartic", "logistic", "rosen"}
 
+// the routines that have an iteration cap or give up with an error also get the badly scaled quadratics with an
+// epsilon that float64 cannot reach (gradient descent has neither: it would never return - property C20)
+var hardFamilies = append(append([]string{}, scalarFamilies...), "quadhard")
+
 var routines = []*routine{
-	{name: "bfgs", families: scalarFamilies, variants: []string{""}, hookKind: "gy", iterBy: "eval", consOpt: true, hookOpt: true, smallCap: 3, bigCap: 60, epsDiv: 1, run: runBfgs},
+	{name: "bfgs", families: hardFamilies, variants: []string{""}, hookKind: "gy", iterBy: "eval", consOpt: true, hookOpt: true, smallCap: 3, bigCap: 60, epsDiv: 1, run: runBfgs},
 	{name: "newton.root", families: []string{"polyroot"}, variants: []string{"None"}, hookKind: "gy", iterBy: "eval", consOpt: true, hookOpt: true, smallCap: 3, bigCap: 25, epsDiv: 1, run: runNewtonRoot},
-	{name: "newton.crit", families: scalarFamilies, variants: []string{"None", "LDL", "Eigenvalue"}, hookKind: "g", iterBy: "eval", consOpt: true, hookOpt: true, smallCap: 3, bigCap: 25, epsDiv: 1, run: runNewtonCrit},
-	{name: "newton.min", families: scalarFamilies, variants: []string{"None", "LDL", "Eigenvalue"}, hookKind: "gy", iterBy: "eval", consOpt: true, hookOpt: true, smallCap: 3, bigCap: 25, epsDiv: 1, run: runNewtonMin},
-	{name: "rprop", families: scalarFamilies, variants: []string{"1.2/0.5", "2/0.1", "1.5/0.8"}, hookKind: "gy", iterBy: "eval", consOpt: true, hookOpt: true, smallCap: 3, bigCap: 300, epsDiv: 1, run: runRprop},
-	{name: "rprop.gradient", families: scalarFamilies, variants: []string{"1.2/0.5", "2/0.1", "1.5/0.8"}, hookKind: "g", iterBy: "eval", consOpt: true, hookOpt: true, smallCap: 3, bigCap: 300, epsDiv: 1, run: runRpropGradient},
+	{name: "newton.crit", families: hardFamilies, variants: []string{"None", "LDL", "Eigenvalue"}, hookKind: "g", iterBy: "eval", consOpt: true, hookOpt: true, smallCap: 3, bigCap: 25, epsDiv: 1, run: runNewtonCrit},
+	{name: "newton.min", families: hardFamilies, variants: []string{"None", "LDL", "Eigenvalue"}, hookKind: "gy", iterBy: "eval", consOpt: true, hookOpt: true, smallCap: 3, bigCap: 25, epsDiv: 1, run: runNewtonMin},
+	{name: "rprop", families: hardFamilies, variants: []string{"1.2/0.5", "2/0.1", "1.5/0.8"}, hookKind: "gy", iterBy: "eval", consOpt: true, hookOpt: true, smallCap: 3, bigCap: 300, epsDiv: 1, run: runRprop},
+	{name: "rprop.gradient", families: hardFamilies, variants: []string{"1.2/0.5", "2/0.1", "1.5/0.8"}, hookKind: "g", iterBy: "eval", consOpt: true, hookOpt: true, smallCap: 3, bigCap: 300, epsDiv: 1, run: runRpropGradient},
 	{name: "gradientDescent", families: []string{"quad", "sepconv", "logistic"}, variants: []string{"0.5", "1", "1.5"}, hookKind: "gy", iterBy: "eval", hookOpt: true, epsDiv: 1, run: runGradientDescent},
 	{name: "adam", families: scalarFamilies, variants: []string{"0.05", "0.3"}, hookKind: "gy", iterBy: "eval", consOpt: true, hookOpt: true, smallCap: 3, bigCap: 300, epsDiv: 3, run: runAdam},
 	{name: "adam.gradient", families: scalarFamilies, variants: []string{""}, hookKind: "g", iterBy: "eval", consOpt: true, hookOpt: true, smallCap: 3, bigCap: 200, epsDiv: 3, run: runAdamGradient},
@@ -570,9 +575,15 @@ func runLineSearch(pr *problem, variant string, o combo, maxit int, rng *rand.Ra
 			return r.hook([]float64{a.GetFloat64()}, []float64{g.GetFloat64()}, []float64{y.GetFloat64()}, true)
 		}})
 	}
+	consAt := func(a float64) bool {
+		if variant == "poly" {
+			return pr.cons([]float64{a})
+		}
+		return pr.cons(point(a))
+	}
 	if pr.cons != nil {
 		args = append(args, lineSearch.Constraints{Value: func(a ConstScalar) bool {
-			return r.cons([]float64{a.GetFloat64()}, pr.cons(point(a.GetFloat64())))
+			return r.cons([]float64{a.GetFloat64()}, consAt(a.GetFloat64()))
 		}})
 	}
 	var an Scalar
@@ -587,6 +598,10 @@ func runLineSearch(pr *problem, variant string, o combo, maxit int, rng *rand.Ra
 	if msg == "" && an != nil {
 		a := an.GetFloat64()
 		res.pt = []float64{a}
+		if pr.cons != nil {
+			ok := consAt(a)
+			res.consOK = &ok
+		}
 		// strong Wolfe conditions with the documented constants c1 = 1e-4, c2 = 0.9
 		ev := func(alpha float64) (float64, float64) {
 			x := NewReal64(alpha)
@@ -615,6 +630,7 @@ type chanProblem struct {
 	p0    []float64
 	steps int
 	naive bool
+	lambda float64
 }
 
 // divergences D_x = sum_y W(y|x) log(W(y|x)/q(y)) in nats, q the output distribution of p
@@ -680,7 +696,8 @@ func runBlahut(cp *chanProblem, o combo, r *rec) result {
 			ch[i] = append([]float64{}, W[i]...)
 		}
 		msg = vh.Try(func() {
-			out = blahut.RunNaive(ch, p0, cp.steps, blahut.HookNaive{Value: func(p []float64, J float64) bool { return hook(append([]float64{}, p...), J) }})
+			out = blahut.RunNaive(ch, p0, cp.steps, blahut.HookNaive{Value: func(p []float64, J float64) bool { return hook(append([]float64{}, p...), J) }},
+				blahut.Lambda{Value: cp.lambda})
 		})
 		startOK = bitsEqual(p0, cp.p0)
 	} else {
@@ -691,7 +708,7 @@ func runBlahut(cp *chanProblem, o combo, r *rec) result {
 		ch := NewDenseFloat64Matrix(flat, len(W), len(W[0]))
 		p0 := NewDenseFloat64Vector(append([]float64{}, cp.p0...))
 		msg = vh.Try(func() {
-			v := blahut.Run(ch, p0, cp.steps, blahut.Hook{Value: func(p Vector, J Scalar) bool { return hook(floats(p), J.GetFloat64()) }}, blahut.Lambda{Value: 1.0})
+			v := blahut.Run(ch, p0, cp.steps, blahut.Hook{Value: func(p Vector, J Scalar) bool { return hook(floats(p), J.GetFloat64()) }}, blahut.Lambda{Value: cp.lambda})
 			out = floats(v)
 		})
 		startOK = bitsEqual(floats(p0), cp.p0)
@@ -720,7 +737,13 @@ func runBlahut(cp *chanProblem, o combo, r *rec) result {
 		sum += v
 	}
 	steps := r.nHook
-	near := okp && math.Abs(sum-1) < 1e-9 && steps > 0 && mutualInfo(W, out) >= C-kl/float64(steps)-1e-9
+	// the rate bound holds for the plain iteration (Lambda = 1) from a start that charges the support of p*; for the
+	// relaxed iterations and for starts with zero entries only "the result is a probability distribution" is required.
+	// NaN never passes: every comparison below is written so that a NaN operand makes it false.
+	near := okp && math.Abs(sum-1) < 1e-9 && steps > 0
+	if near && cp.lambda == 1 && !math.IsInf(kl, 0) {
+		near = mutualInfo(W, out) >= C-kl/float64(steps)-1e-9
+	}
 	res.nearOK = &near
 	res.info = vh.M{"capacity_nats": C, "mi_nats": mutualInfo(W, out), "kl_start": kl, "steps_done": steps}
 	return res
